@@ -2,7 +2,7 @@
    ExtrOcamlBasic only: bool, option, list, prod, unit, sumbool map to the OCaml types;
    N/Z/positive/nat/ascii/string stay the extracted inductives.  No Extract Constant of ours. *)
 Require Import AvraV.Model.Base AvraV.Model.Ast AvraV.Model.Device AvraV.Model.Eval AvraV.Model.Encode.
-Require Import AvraV.Model.Grammar AvraV.Model.Show AvraV.Spec.ExprSpec AvraV.Model.Lines AvraV.Model.Parse AvraV.Model.Passes.
+Require Import AvraV.Model.Grammar AvraV.Model.Show AvraV.Spec.ExprSpec AvraV.Model.Lines AvraV.Model.Fs AvraV.Model.Parse AvraV.Model.Passes AvraV.Model.Files.
 Require Import AvraV.Model.Hex AvraV.Spec.HexReader AvraV.Spec.Isa AvraV.Gen.OpTable AvraV.Gen.Devices.
 Require Extraction.
 Require Import ExtrOcamlBasic.
@@ -10,5 +10,5 @@ Extraction Language OCaml.
 Extraction "avmodel.ml" Hex.write HexReader.holds_C07 HexReader.read_file
   Ast.lit Eval.ctx_new Eval.run Encode.process Encode.operation_of_name Isa.expect Isa.expect_at Isa.decode
   Devices.default_device Devices.devices
-  Lines.parse_line Passes.build_str
+  Lines.parse_line Passes.build_str Files.build_file Fs.components
   Grammar.parse_expr Show.show_expr Show.show_Z ExprSpec.spec_eval.
